@@ -160,6 +160,49 @@ def run(chk):
         chk.bounded('frame: arguments and existing objects unchanged after every operation', list(cases()), check, classify=lambda c: c,
                     bound=f'{len(ins)} nested input shapes x {len(ops)} operations singly and in sequences of 2 (' + ('every 5th pair' if chk.tier == 'quick' else 'all pairs') + ')')
 
+        # ---- every argument counts, not only the object: selector and marking lists handed to the marking functions, dictionaries and reference scopes handed to parse_observable
+        M2x = 'marking-definition--34098fce-860f-48ae-8e50-ebd3cc5e41da'
+        def arg_cases():
+            for iname in ('malware+markings+custom (2.1)', 'identity (2.0)'):
+                for fname in ('add_markings', 'set_markings', 'remove_markings', 'clear_markings', 'get_markings', 'is_marked'):
+                    for form in ('function(object)', 'function(dict)', 'method'):
+                        for sels in (['name', 'labels', 'created'], ['name', 'created', 'name'], ('name', 'created')):
+                            yield ('markings', iname, fname, form, sels)
+            for dname, d in (('registered observable (2.0 form)', {'type': 'file', 'name': 'f', 'hashes': {'md5': 'a' * 32}, 'parent_directory_ref': '1', 'extensions': {'ntfs-ext': {'sid': 's'}}}),
+                             ('unregistered observable', {'type': 'x-vf-unreg-obs', 'foo': [1, {'a': [2]}], 'bar_ref': '1'}),
+                             ('registered observable (2.1 form)', {'type': 'file', 'spec_version': '2.1', 'id': 'file--' + G.UUID, 'name': 'f', 'hashes': {'sha256': 'c' * 64}})):
+                for ac in (True, False):
+                    for ver in ('2.0', '2.1'):
+                        for refs in ({'1': 'directory'}, ['1'], None): yield ('parse_observable', dname, d, ac, ver, refs)
+
+        def arg_check(case):
+            if case[0] == 'markings':
+                _, iname, fname, form, sels = case
+                d = copy.deepcopy(ins[iname]); o = stix2.parse(copy.deepcopy(d), allow_custom=True)
+                if fname in ('remove_markings', 'clear_markings'):
+                    d['granular_markings'] = [{'marking_ref': TLP, 'selectors': sorted(set(sels))}, {'marking_ref': M2x, 'selectors': sorted(set(sels))}]; o = stix2.parse(copy.deepcopy(d), allow_custom=True)
+                sel_arg = copy.deepcopy(sels); marks = [M2x, TLP]; target = o if form != 'function(dict)' else d
+                s0, m0, t0 = snapshot(sel_arg), snapshot(marks), snapshot(target)
+                try:
+                    if form == 'method':
+                        if not hasattr(o, fname): return None
+                        getattr(o, fname)(*([sel_arg] if fname in ('clear_markings', 'get_markings') else [marks, sel_arg]))
+                    else: getattr(MK, fname)(target, *([sel_arg] if fname in ('clear_markings', 'get_markings') else [marks, sel_arg]))
+                except (stix2.exceptions.STIXError, ValueError, TypeError): pass
+                if snapshot(sel_arg) != s0: return (f'frame#{fname}:selector list argument', f'{iname}: {fname} ({form}) changed the caller\'s selector list {sels!r} into {sel_arg!r}', {})
+                if snapshot(marks) != m0: return (f'frame#{fname}:marking list argument', f'{iname}: {fname} ({form}) changed the caller\'s marking list into {marks!r}', {})
+                if snapshot(target) != t0: return (f'frame#{fname}:object argument', f'{iname}: {fname} ({form}) changed its object argument', {})
+                return None
+            _, dname, d, ac, ver, refs = case
+            d1 = copy.deepcopy(d); r1 = copy.deepcopy(refs); d0, r0 = snapshot(d1), snapshot(r1)
+            for data in (d1,):
+                try: stix2.parse_observable(data, _valid_refs=r1, allow_custom=ac, version=ver)
+                except (stix2.exceptions.STIXError, ValueError, TypeError): pass
+                if snapshot(d1) != d0: return ('frame#parse_observable:dictionary argument', f'{dname}: parse_observable(allow_custom={ac}, version={ver}, _valid_refs={refs!r}) changed the caller\'s dictionary into {d1!r:.200}', {})
+                if snapshot(r1) != r0: return ('frame#parse_observable:reference scope argument', f'{dname}: parse_observable changed the caller\'s _valid_refs into {r1!r}', {})
+        chk.bounded('frame: every argument of the marking functions and of parse_observable', list(arg_cases()), arg_check, classify=lambda c: tuple(repr(x)[:40] for x in c),
+                    bound='6 marking functions x 3 call forms x 3 unsorted / repeated selector lists (list and tuple) x 2 objects; parse_observable on 3 dictionaries x custom modes x versions x 3 reference scopes')
+
         def imm_cases():
             for iname in ins:
                 o = stix2.parse(copy.deepcopy(ins[iname]), allow_custom=True)
